@@ -43,7 +43,19 @@ MANIFEST = dict(
          "('nothing seen yet', tested with `is None` beside the value comparison) only when the scan begins at sorted position 0, never as another constant. "
          "A flagged scan without a flag comparison is accepted only when equal values are visited by decreasing flag: o = flag.argsort()[::-1], "
          "s = o[argsort(arr[o], kind='stable')] (or lexsort) with the first entry of every run kept; a second sort that is not stable, an increasing flag "
-         "order, or a flag array that is never read is a violation; a decreasing order obtained by negating the flags gives no verdict.",
+         "order, or a flag array that is never read is a violation; a decreasing order obtained by negating the flags gives no verdict. "
+         "match, further equalities: a path that has established size(first) == 1 has passed the uniqueness and the non-empty guard, and its result is "
+         "(zeros(size(I2)), I2) with I2 = where(first[0] == second); on a path that has established that the first array has no repeated value, "
+         "numpy.unique(first) is first[argsort(first)] and the first-occurrence indices of numpy.unique(first, return_index=True) are argsort(first), and "
+         "every term of the path is re-normalised with these equalities; the clamp may be skipped on a path that has established that no entry of the very "
+         "search result equals the array size (any(p == n) false, all(p < n), max(p) < n, a zero count of p == n); any other test on the search result "
+         "gives no verdict instead of 'unclamped'. De-duplication over a shared run helper (a generator, or a list builder, that walks the sorted values "
+         "once and emits (start, stop) per run): the helper is decided by the scan rules (seeded from sorted position 0, visits every position to the end, "
+         "one value-change test, the finished run emitted as (remembered start, current position) before the start is moved, the last run emitted as "
+         "(start, size) after the loop); its users are decided on descriptors: the helper is given input[argsort(input)], exactly one entry per emitted "
+         "pair is kept (comprehension without filter, or one unconditional append in a loop that cannot be left early), the entry is a member of the run "
+         "(start or stop-1; flagged: the position of the largest flag found by a seeded scan over range(start[+1], stop) with a strictly-larger test whose "
+         "comparand is replaced together with the position, or start + argmax(flags[start:stop])), and what is returned is in Idx space.",
     note="Not decided: completeness for all arrays (numpy.searchsorted/argsort/unique semantics trusted); NaN handling.",
     technique="static analysis: path-wise symbolic execution to normalised terms (match, vectorised unique), index-space typing over "
               "expression descriptors with CFG control dependence (scan loops)",
@@ -98,7 +110,7 @@ def is_indexlike(t):
     if not isinstance(t, tuple):
         return False
     h = t[0]
-    if h in ("argsort", "ss", "clamp", "where0", "arange"):
+    if h in ("argsort", "ss", "clamp", "where0", "arange", "uniqidx"):
         return True
     if h == "take":
         return is_indexlike(t[1]) and not is_const(t[2])
@@ -215,6 +227,8 @@ def t_size(x):
         return t_size(x[2])
     if h == "a1d" and x[1][0] in ("tuple", "list"):
         return K(len(x[1]) - 1)
+    if h == "uniqidx":
+        return ("size", ("unique", x[1]))       # one index per distinct value
     return ("size", x)
 
 
@@ -316,7 +330,7 @@ def _is_below_end(cond, p):
     op, l, r = cond[1:]
     if op == "lt" and l == p and r[0] == "size":
         return r[1]
-    if op == "le" and l == p:
+    if op in ("le", "lt") and l == p:                      # p <= size-1;  p < size-1 says more than that
         return _minus1_of(r, None)
     if op == "ne" :
         for a, b in ((l, r), (r, l)):
@@ -375,6 +389,117 @@ def t_ss(a, v, side, sorter):
             return ("ss", a[1], a[2], v, side)
         return ("ss", a, NONE, v, side)
     return ("ss", a, sorter, v, side)
+
+
+def renorm(t, sub):
+    """the term t with the sub-terms in `sub` replaced, rebuilt bottom-up through the normalising constructors (so that the laws they apply
+    -- x[i][j] = x[i[j]], searchsorted(a[argsort(a)], v) = searchsorted(a, v, sorter=argsort(a)), ... -- see the replaced terms)"""
+    if not isinstance(t, tuple) or not t:
+        return t
+    if t in sub:
+        return sub[t]
+    if not isinstance(t[0], str):
+        return tuple(renorm(x, sub) for x in t)
+    h = t[0]
+    if h == "const":
+        return t
+    c = tuple(renorm(x, sub) if isinstance(x, tuple) else x for x in t[1:])
+    if c == t[1:]:
+        return t
+    if h == "take" and len(c) == 2:
+        return t_take(c[0], c[1])
+    if h == "ss" and len(c) == 4:
+        return t_ss(c[0], c[2], c[3], c[1])
+    if h == "clamp" and len(c) == 2:
+        core, j = _gathered(c[0])
+        return _regather(("clamp", core, c[1]), j) if core[0] == "ss" else ("clamp",) + c
+    if h == "size" and len(c) == 1:
+        return t_size(c[0])
+    if h == "cmp" and len(c) == 3:
+        return t_cmp(c[0], c[1], c[2])
+    if h == "binop" and len(c) == 3:
+        return t_binop(c[0], c[1], c[2])
+    if h == "not" and len(c) == 1:
+        return t_not(c[0])
+    if h == "or":
+        return t_or(list(c))
+    if h == "and":
+        return t_and(list(c))
+    if h in ("max", "min") and len(c) == 1:
+        return (h, _unperm(c[0]))
+    if h == "setitem" and len(c) == 3:
+        return t_setitem(c[0], c[1], c[2])
+    return (h,) + c
+
+
+def _end_cond(c):
+    """c compares a raw search result p (element-wise), or its largest entry max(p), with the size of an array A: (p, A, 'at' when c says
+    `== size(A)` / `>= size(A)` / `> size(A)-1`, 'below' when it says `< size(A)` / `<= size(A)-1` / `!= size(A)`, is it the max form)"""
+    if not (isinstance(c, tuple) and c and c[0] == "cmp"):
+        return None
+    for x in c[2:]:
+        if not (isinstance(x, tuple) and x):
+            continue
+        q = x[1] if x[0] == "max" else x
+        if not (isinstance(q, tuple) and q and _gathered(q)[0][0] == "ss"):
+            continue
+        for kind, test in (("at", _is_at_end), ("below", _is_below_end)):
+            arr = test(c, x)
+            if arr is not None:
+                return q, arr, kind, x[0] == "max"
+    return None
+
+
+def end_fact(t, v):
+    """the decided test `t is v` asks whether some entry of a search result p equals the size of an array A (the one value of a search result that
+    is not a valid index): (p, A, True when the answer is that NO entry of p equals size(A)); None when t is not such a test.
+    Forms: any(p == n) / all(p < n) / max(p) == n / max(p) < n / the number of entries with p == n (size of where(), sum, count_nonzero) against 0"""
+    if not (isinstance(t, tuple) and t):
+        return None
+    if t[0] in ("any", "all") and len(t) == 2:
+        ec = _end_cond(t[1])
+        if ec is None or ec[3]:
+            return None
+        return ec[0], ec[1], (t[0] == "any" and ec[2] == "at" and not v) or (t[0] == "all" and ec[2] == "below" and bool(v))
+
+    def count(x):
+        c = None
+        if isinstance(x, tuple) and x:
+            if x[0] == "size" and x[1][0] == "where0":
+                c = x[1][1]
+            elif x[0] == "sum":
+                c = x[1]
+            elif x[0] == "call" and x[1] in ("np.count_nonzero", "np.sum") and len(x[2]) == 1 and not x[3]:
+                c = x[2][0]
+        ec = _end_cond(c) if c is not None else None
+        return ec if ec is not None and ec[2] == "at" and not ec[3] else None
+    ec = count(t)
+    if ec is not None:
+        return ec[0], ec[1], not v
+    if t[0] == "cmp":
+        ec = _end_cond(t)
+        if ec is not None and ec[3]:
+            return ec[0], ec[1], (ec[2] == "at" and not v) or (ec[2] == "below" and bool(v))
+        op, l, r = t[1:]
+        for cnt, zero in ((l, r), (r, l)):
+            ec = count(cnt)
+            if ec is None or zero not in (K(0), K(1)):
+                continue
+            none = None
+            if zero == K(0):
+                if op in ("eq", "ne"):
+                    none = bool(v) == (op == "eq")
+                elif op == "lt" and l == zero:          # 0 < count
+                    none = not v
+                elif op == "le" and l == cnt:           # count <= 0
+                    none = bool(v)
+            elif op == "lt" and l == cnt:               # count < 1
+                none = bool(v)
+            elif op == "le" and l == zero:              # 1 <= count
+                none = not v
+            if none is not None:
+                return ec[0], ec[1], none
+    return None
 
 
 def atoms(term, truth, out):
@@ -439,7 +564,7 @@ class Frame:
 
 _IDENT_NP = ("asarray", "asanyarray", "array", "ascontiguousarray")
 _INPLACE_NP = ("putmask", "place", "put", "copyto")
-_ARRAYISH = ("a1d", "asarr", "argsort", "ss", "clamp", "where0", "take", "alloc", "arr", "concat", "setitem", "unique")
+_ARRAYISH = ("a1d", "asarr", "argsort", "ss", "clamp", "where0", "take", "alloc", "arr", "concat", "setitem", "unique", "uniqidx")
 
 
 class SX:
@@ -792,7 +917,7 @@ class SX:
 
     def call_func(self, n, args, arefs, kw, krefs, e):
         if n == "unique" and len(args) == 1 and not kw:
-            return ("unique", _unperm(args[0]))          # the package's own unique: one index per distinct value
+            return ("uniqidx", _unperm(args[0]))         # the package's own unique: one index per distinct value
         if n in self.keep_calls or self.depth >= 3:
             r = ("call", n, tuple(args), tuple(sorted(kw.items())))
         else:
@@ -914,6 +1039,9 @@ class SX:
             return ("where0", a0)
         if name == "unique" and len(args) == 1 and not kw:
             return ("unique", _unperm(a0))
+        if name == "unique" and len(args) == 1 and kw == {"return_index": K(True)}:
+            # the sorted distinct values and the index of the first occurrence of each
+            return ("tuple", ("unique", _unperm(a0)), ("uniqidx", _unperm(a0)))
         if name == "minimum" and len(args) == 2 and not kw:
             return t_minimum(args[0], args[1])
         if name == "clip" and len(args) >= 2 and not kw:
@@ -1269,6 +1397,8 @@ def fact_kind(t, v, a1, a2, pres):
     (no element of the second array exceeds the first array's maximum), 'other' (understood, none of these), None (not understood)"""
     h = t[0]
     n1, n2 = ("size", a1), ("size", a2)
+    if end_fact(t, v) is not None:
+        return "other"              # asks whether the search found a position past the end: what follows from it is decided where the clamp is
     if h == "cmp":
         op, l, r = t[1:]
         u = ("size", ("unique", a1))
@@ -1286,6 +1416,8 @@ def fact_kind(t, v, a1, a2, pres):
                     return tag
                 return "other"
             if {l, r} == {n, K(1)}:
+                if (op == "eq" and v) or (op == "ne" and not v):
+                    return tag + ("+unique+single" if n == n1 else "")       # exactly one element: not empty, and no value can be repeated
                 if (op == "lt" and l == n and not v) or (op == "le" and l == K(1) and v):
                     return tag
                 return "other"
@@ -1378,6 +1510,16 @@ def _match_path(V, fi, p, pres, a1, a2):
     wf = fi.where()
     s = ("argsort", a1)
     kinds = [(t, v, fact_kind(t, v, a1, a2, pres)) for t, v, _ in p.facts]
+    events = p.events
+    r = p.value
+    if any(k is not None and "unique" in k.split("+") for _, _, k in kinds) and any(contains(r, u) for u in (("unique", a1), ("uniqidx", a1))):
+        # the path has established that the first array has no repeated value: its sorted distinct values (numpy.unique) then are the array in
+        # sorted order, a[argsort(a)], and the index of the first occurrence of each distinct value is argsort(a) -- the one permutation that
+        # sorts an array of distinct values.  Everything seen on this path is re-read with these equalities
+        sub = {("unique", a1): t_take(a1, s), ("uniqidx", a1): s}
+        r = renorm(r, sub)
+        events = [e[:1] + (renorm(e[1], sub),) + e[2:] for e in events]
+        kinds = [(renorm(t, sub), v, k) for t, v, k in kinds]
 
     def guard(kind, key, msg, mention):
         if any(k is not None and kind in k.split("+") for _, _, k in kinds):
@@ -1395,7 +1537,6 @@ def _match_path(V, fi, p, pres, a1, a2):
     guard("nonempty1", "empty-rejected::first", "an empty first array is rejected", ("size", a1))
     guard("nonempty2", "empty-rejected::second", "an empty second array is rejected", ("size", a2))
 
-    r = p.value
     if r[0] == "tuple" and len(r) == 3 and r[1][0] == "where0" and r[2][0] != "where0":
         V.add("returns-pairs" + tag, False, "returns (indices into first, indices into second) in this order; found %s" % short(r), w)
         return
@@ -1445,15 +1586,27 @@ def _match_path(V, fi, p, pres, a1, a2):
     else:
         V.add(key, None, msg + "; the subscripted array is %s" % short(b), w)
         return
-    # -- the search ------------------------------------------------------------
+    # -- a first array of exactly one element: nothing to search ------------------
     sss = {t for t in subterms(r) if isinstance(t, tuple) and t and t[0] == "ss"}
+    if not sss and c in (K(0), K(-1)) and b == a1 and any(k is not None and "single" in k.split("+") for _, _, k in kinds):
+        # the path has established size(first) == 1: its only element (index 0, which is also index -1) is compared with every element of the
+        # second array, and every pair names index 0 of the first array
+        V.add(key, True, msg + " (one-element first array: the found index is 0 for every element of the second array)", w)
+        n2 = t_size(i2)
+        zeros = i1[0] == "alloc" and i1[1] == "zeros" and _alloc_n(i1) == n2
+        zeros = zeros or i1 in (("binop", "*", i2, K(0)), ("binop", "*", K(0), i2))
+        wrong = i1[0] == "alloc" and (i1[1] != "zeros" or _alloc_n(i1) in (t_size(a1), t_size(a2)))
+        V.add("first-indices" + tag, True if zeros else (False if wrong or i1 == i2 else None),
+              "for a one-element first array the indices into it are one 0 per matching element of the second array; found %s" % short(i1), w)
+        return
+    # -- the search ------------------------------------------------------------
     if len(sss) != 1:
         V.add("single-search" + tag, None, "the returned pairs derive from one sorted search (found %d)" % len(sss), w)
         return
     V.add("single-search" + tag, True, "the returned pairs derive from one sorted search", w)
     p0 = next(iter(sss))
     _, sa, sorter, sv, side = p0
-    lines = [e[2] for e in p.events if e[0] == "ss" and e[1] == p0]
+    lines = [e[2] for e in events if e[0] == "ss" and e[1] == p0]
     ws = "%s:%s" % (wf.rsplit(":", 1)[0], lines[0]) if lines else w
     if sa == a1 and sv == a2:
         ok = True
@@ -1518,15 +1671,19 @@ def _match_path(V, fi, p, pres, a1, a2):
          "second array can exceed the first array's maximum"
     if found == pc:
         V.add(kc, True, mc, w)
-        early = [e for e in p.events if e[0] == "take" and e[1][0] == "take" and e[1][1] in (a1, s) and raw_occurs(e[1][2], p0)]
+        early = [e for e in events if e[0] == "take" and e[1][0] == "take" and e[1][1] in (a1, s) and raw_occurs(e[1][2], p0)]
         V.add("clamp-before-use" + tag, not early, "the search result subscripts the first array / its sorter only after the clamp%s"
               % ("" if not early else ": `%s` at line %d" % (short(early[0][1]), early[0][2])), w)
     else:
         if any(k == "noexceed" for _, _, k in kinds):
             V.add("clamp-guard" + tag, True, "the clamp is skipped only when no element of the second array can exceed the first array's maximum", w)
+        elif any(end_fact(t, v) == (p0, a1, True) for t, v, _ in kinds):
+            V.add("clamp-guard" + tag, True, "the clamp is skipped only when the path has established that no position found by the search equals the array "
+                  "size (no element of the second array exceeds the first array's maximum)", w)
         else:
-            unk = [t for t, v, k in kinds if k is None]
-            esc = [e for e in p.events if e[0] == "escape" and contains(e[1], p0)]
+            # a test that looks at the search result itself and is not one of the forms end_fact knows may be what makes the clamp unnecessary
+            unk = [t for t, v, k in kinds if k is None or (contains(t, p0) and end_fact(t, v) is None)]
+            esc = [e for e in events if e[0] == "escape" and contains(e[1], p0)]
             if esc:
                 V.add(kc, None, mc + "; the search result is handed to `%s` at line %d, which this check has no model for (it may clamp in place)"
                       % (esc[0][4], esc[0][2]), w)
@@ -1539,6 +1696,11 @@ def _match_path(V, fi, p, pres, a1, a2):
 # de-duplication helpers
 # ---------------------------------------------------------------------------
 def dedup_rules(chk, mod, fi, narr):
+    helpers = _run_helper_names(mod)
+    if _uses_run_helper(mod, fi.node, helpers):
+        # the runs of equal values come from a shared helper that emits their bounds: the helper and its user are decided separately
+        _runs_dedup(chk, mod, fi, narr, helpers)
+        return
     loops = [x for x in walk_no_nested(fi.node) if isinstance(x, (ast.For, ast.While, ast.AsyncFor))]
     if loops:
         split = _fast_split(fi.node)
@@ -2863,3 +3025,596 @@ def _vector_flagged(V, r, a, fl, facts, w):
     ko, mo = "one-kept-per-run", "exactly one candidate of every run is kept: the first one, found where the run number of a candidate differs from that of the candidate before"
     V.add(ko, True if _first_of_runs_mask(keep[2], t_take(run_id, cand), True) else None, mo + ("" if _first_of_runs_mask(keep[2], t_take(run_id, cand), True)
                                                                                          else "; found %s" % short(keep[2])), w)
+
+
+# ---------------------------------------------------------------------------
+# de-duplication written over a shared run helper: a generator that walks the sorted values once and yields the bounds (start, stop) of every
+# run of equal values; the public functions keep one position per run
+# ---------------------------------------------------------------------------
+def _emits(fn):
+    """[(statement, emitted expression)] of a run helper: `yield v`, or `L.append(v)` for a helper that builds and returns a list L; None when
+    the helper is neither"""
+    ys = [x for x in walk_no_nested(fn) if isinstance(x, (ast.Yield, ast.YieldFrom))]
+    stmts = [x for x in walk_no_nested(fn) if isinstance(x, ast.Expr)]
+    if ys:
+        out = [(st, st.value.value) for st in stmts if isinstance(st.value, ast.Yield) and st.value.value is not None]
+        rets = [x for x in walk_no_nested(fn) if isinstance(x, ast.Return) and x.value is not None]
+        return out if len(out) == len(ys) and not rets else None
+    rets = [x for x in walk_no_nested(fn) if isinstance(x, ast.Return) and x.value is not None]
+    if not rets or not all(isinstance(r.value, ast.Name) for r in rets) or len({r.value.id for r in rets}) != 1:
+        return None
+    name = rets[0].value.id
+    binds = [x for x in walk_no_nested(fn) if isinstance(x, ast.Name) and x.id == name and isinstance(x.ctx, (ast.Store, ast.Del))]
+    init = [st for st in fn.body if isinstance(st, ast.Assign) and len(st.targets) == 1 and isinstance(st.targets[0], ast.Name) and st.targets[0].id == name]
+    if len(binds) != 1 or len(init) != 1 or not ((isinstance(init[0].value, ast.List) and not init[0].value.elts)
+                                                  or (isinstance(init[0].value, ast.Call) and _cname(init[0].value) == "list" and not init[0].value.args)):
+        return None
+    out = []
+    uses = 0
+    for x in walk_no_nested(fn):
+        if isinstance(x, ast.Name) and x.id == name and isinstance(x.ctx, ast.Load):
+            uses += 1
+    for st in stmts:
+        c = st.value
+        if isinstance(c, ast.Call) and isinstance(c.func, ast.Attribute) and c.func.attr == "append" and isinstance(c.func.value, ast.Name) \
+                and c.func.value.id == name and len(c.args) == 1 and not c.keywords:
+            out.append((st, c.args[0]))
+    # the list is only ever appended to and returned
+    return out if out and uses == len(out) + len(rets) and rets[-1] is fn.body[-1] else None
+
+
+def _run_helper_names(mod):
+    """module-level functions of one array that emit pairs (candidates for a run helper; whether they emit the run bounds is a rule)"""
+    out = set()
+    for name, fn in mod.defs.items():
+        if name in ("unique", "rem_dup", "match", "match_multi"):
+            continue
+        a = fn.args
+        if len(a.posonlyargs + a.args) != 1 or a.vararg or a.kwarg or a.kwonlyargs:
+            continue
+        em = _emits(fn)
+        if em and all(isinstance(v, ast.Tuple) and len(v.elts) == 2 for _, v in em):
+            out.add(name)
+    return out
+
+
+def _strip_seq(e):
+    while isinstance(e, ast.Call) and isinstance(e.func, ast.Name) and e.func.id in ("list", "tuple", "iter") and len(e.args) == 1 and not e.keywords:
+        e = e.args[0]
+    return e
+
+
+def _uses_run_helper(mod, fn, helpers):
+    if not helpers:
+        return False
+    return any(isinstance(x, ast.Call) and isinstance(x.func, ast.Name) and x.func.id in helpers for x in walk_no_nested(fn))
+
+
+def _type_subscripts(ob, sc, fi):
+    """every subscript of the input / the sorter / a sorted-order array is applied in the matching index space"""
+    n_sub = 0
+    for x in walk_no_nested(sc.fn):
+        if not isinstance(x, ast.Subscript):
+            continue
+        xe = sc.X(x) if isinstance(x.ctx, ast.Load) else ast.Subscript(value=sc.X(x.value), slice=sc.X(x.slice), ctx=ast.Load())
+        if not isinstance(xe, ast.Subscript) or isinstance(xe.slice, ast.Slice):
+            continue
+        b = sc.D(xe.value)
+        if b[0] not in ("in", "sorter", "sv"):
+            continue
+        n_sub += 1
+        d = sc.D(xe)
+        txt = norm(xe)
+        if b[0] == "in":
+            key = "input-indexed-in-Idx-space::%s" % txt
+            msg = "`%s`: the input array must be indexed by an input index (sorter[position] or an array of such)" % txt
+        else:
+            key = "sorted-indexed-in-Pos-space::%s" % txt
+            msg = "`%s`: sorted-order arrays are indexed by sorted positions" % txt
+        if d[0] == "inval":
+            ob(key, False, fi.where(x), msg + " -- a literal index into the *unsorted* input is not the element at sorted position %s" % d[2])
+        elif d[0] == "bad":
+            ob(key, False, fi.where(x), msg + " -- " + d[1])
+        elif d[0] == "unk":
+            ob(key, None, fi.where(x), msg + " -- " + d[1])
+        else:
+            ob(key, True, fi.where(x), msg)
+    return n_sub
+
+
+class GenScan(Scan):
+    """a helper that walks an array which is already in sorted order: its parameter is indexed by sorted positions"""
+
+    def __init__(self, fi):
+        Scan.__init__(self, fi, 1)
+        self.inputs = set()
+
+    def D(self, e):
+        if isinstance(e, ast.Name) and e.id == self.key:
+            return ("sv", self.key)
+        return Scan.D(self, e)
+
+
+_HELPER_VERDICT = {}
+
+
+def _verify_run_helper(chk, mod, name):
+    """decide that the helper emits, for the Pos-indexed array x it is given, exactly the pairs (b_k, b_k+1) with b_0 = 0, b_k the positions
+    p >= 1 with x[p] != x[p-1] in ascending order, and size(x) after the last: the bounds of every maximal run of equal neighbours.
+    Returns True (all rules passed) / False (a rule is contradicted) / None (not recognised); the rule instances are reported once"""
+    ck = (id(chk), name)
+    if ck in _HELPER_VERDICT:
+        return _HELPER_VERDICT[ck]
+    fi = mod.func(name)
+    chk.analysed_unit(fi.qualname)
+    q = fi.qualname + "::runs"
+    res = []
+
+    keys = set()
+
+    def ob(key, ok, where, msg):
+        if key in keys:
+            return
+        keys.add(key)
+        res.append(ok)
+        chk.ob("R06.1", q + "::" + key, ok, where, msg)
+
+    def done():
+        v = False if any(r is False for r in res) else (None if any(r is None for r in res) else True)
+        _HELPER_VERDICT[ck] = v
+        return v
+
+    sc = GenScan(fi)
+    fn = sc.fn
+    key = sc.key
+    why = sc.find_loop()
+    lp = sc.loop
+    if not why and sc.counter is None:
+        why = "the loop does not count sorted positions"
+    if not why and lp not in fn.body:
+        why = "the loop is nested in another statement"
+    if not why and any(isinstance(x, (ast.Break, ast.Continue, ast.Return, ast.Try, ast.With)) for st in lp.body for x in ast.walk(st)):
+        why = "the loop can be left or cut short (break / continue / return)"
+    if not why and lp.orelse:
+        why = "the loop has an else clause"
+    ob("scan-recognised", None if why else True, fi.where(), "the run helper is one counted scan over the sorted values it is given%s" % ("" if not why else " -- " + why))
+    if why:
+        return done()
+    ob("scan-starts-at-sorted-position-1", None if sc.start is None else sc.start in (0, 1), fi.where(lp),
+       "the scan visits every sorted position after the seed (it starts at position %s; position 0 is the seed)" % sc.start)
+    bd = sc.D(sc.X(sc.bound))
+    ob("scan-runs-to-the-end", True if bd == ("size", ("sv", key)) else None, fi.where(lp),
+       "the scan runs up to the last sorted position (bound `%s`)" % norm(sc.X(sc.bound)))
+    cur = ("pos", "cur")
+    # -- the new-run test: a direct child of the loop body ------------------
+    runs = []
+    for x in lp.body:
+        if not isinstance(x, ast.If):
+            continue
+        t = sc.X(x.test)
+        if isinstance(t, ast.Compare) and len(t.ops) == 1 and isinstance(t.ops[0], (ast.NotEq, ast.Eq, ast.Lt, ast.Gt)):
+            a, b = sc.D(t.left), sc.D(t.comparators[0])
+            op = t.ops[0]
+            for me, ref, me_left in ((a, b, True), (b, a, False)):
+                if me == ("val", key, "cur") and ref != me and ((ref[0] == "runval" and ref[2] == key) or (ref[0] in ("val", "inval") and ref[1] == key)):
+                    if isinstance(op, (ast.NotEq, ast.Eq)):
+                        runs.append((x, ref, "T" if isinstance(op, ast.NotEq) else "F"))
+                    elif isinstance(op, ast.Gt) == me_left:
+                        runs.append((x, ref, "T"))      # predecessor < current: in ascending order the same as !=
+    nested = [x for st in lp.body for x in ast.walk(st) if isinstance(x, ast.If)]
+    ob("new-run-test", True if len(runs) == 1 and len(nested) == 1 else None, fi.where(lp),
+       "a new run starts where the value at the current sorted position differs from the value of the run (found %d such test(s) among %d tests of the loop)"
+       % (len(runs), len(nested)))
+    if not (len(runs) == 1 and len(nested) == 1):
+        return done()
+    runif, ref, newlab = runs[0]
+    arm = runif.body if newlab == "T" else runif.orelse
+    # -- what is emitted ------------------------------------------------------
+    em = _emits(fi.node)
+    em = _emits(fn) if em is not None else None
+    if em is None:
+        ob("emits-recognised", None, fi.where(), "the helper yields its pairs (or appends them to the one list it returns)")
+        return done()
+    inl = [(st, v) for st, v in em if id(st) in sc.inloop]
+    post = [(st, v) for st, v in em if id(st) not in sc.inloop and st.lineno > lp.lineno]
+    pre = [(st, v) for st, v in em if id(st) not in sc.inloop and st.lineno < lp.lineno]
+    if pre or len(inl) != 1 or inl[0][0] not in arm or len(post) > 1 or (post and post[0][0] not in fn.body):
+        ob("emits-recognised", None, fi.where(), "one pair is emitted where a new run starts and one after the scan (found %d before, %d in, %d after the loop)"
+           % (len(pre), len(inl), len(post)))
+        return done()
+    ist, iv = inl[0]
+    d0, d1 = sc.D(sc.X(iv.elts[0])), sc.D(sc.X(iv.elts[1]))
+    bvar = d0[1][1] if d0[0] == "pos" and isinstance(d0[1], tuple) and d0[1][0] == "var" else None
+    ob("finished-run-emitted-at-a-value-change", True if bvar and d1 == cur else (False if bvar and d1[0] == "pos" and d1 != cur else None), fi.where(ist),
+       "where the value changes the finished run is emitted as (remembered start, current position): `%s`" % norm(iv))
+    if not (bvar and d1 == cur):
+        return done()
+    if not post:
+        ob("last-run-emitted", False, fi.where(lp), "after the scan the last run is emitted as (remembered start, size); nothing is emitted after the loop, "
+           "so the largest value never gets a run")
+        return done()
+    pst, pv = post[0]
+    e0, e1 = sc.D(sc.X(pv.elts[0])), sc.D(sc.X(pv.elts[1]))
+    later = [x for x in walk_no_nested(fn) if isinstance(x, ast.Return) and lp.lineno < x.lineno < pst.lineno]
+    okp = e0 == d0 and e1 == ("size", ("sv", key)) and not later
+    ob("last-run-emitted", True if okp else (False if e0 == d0 and e1[0] in ("pos", "lit") else None), fi.where(pst),
+       "after the scan the last run is emitted as (remembered start, size): `%s`" % norm(pv))
+    # -- the remembered start ---------------------------------------------------
+    bdefs = [(sc.D(sc.X(v)) if isinstance(v, ast.AST) else ("opaque",), st) for v, st in sc.defs.get(bvar, [])]
+    outs = [(d, st) for d, st in bdefs if id(st) not in sc.inloop]
+    ins = [(d, st) for d, st in bdefs if id(st) in sc.inloop]
+    ok = True if len(outs) == 1 and outs[0][0] == ("lit", 0) and outs[0][1] in fn.body and outs[0][1].lineno < lp.lineno else \
+        (False if outs and all(d[0] == "lit" and d[1] != 0 for d, st in outs) else None)
+    ob("slot0-seeded-from-sorted-position-0", ok, fi.where(outs[0][1]) if outs else fi.where(), "the remembered start of the first run is sorted position 0")
+    ok = None
+    if len(ins) == 1 and ins[0][0] == cur and ins[0][1] in arm:
+        ok = True if arm.index(ins[0][1]) > arm.index(ist) else False
+    elif not ins:
+        ok = False
+    ob("start-restarts-after-the-emit", ok, fi.where(runif), "at a value change the finished run is emitted first and the remembered start then becomes the "
+       "current position")
+    # -- the value the current element is compared with ---------------------------
+    kk = "running-value-replaced-at-new-run"
+    mm = "at a new run the value compared against becomes the value at the current sorted position"
+    if ref[0] == "runval":
+        vdefs = [(sc.D(sc.X(v)) if isinstance(v, ast.AST) else ("opaque",), st) for v, st in sc.defs.get(ref[1], [])]
+        vouts = [(d, st) for d, st in vdefs if id(st) not in sc.inloop]
+        vins = [(d, st) for d, st in vdefs if id(st) in sc.inloop]
+        for d, st in vouts:
+            ok = True if d == ("val", key, ("lit", 0)) and st in fn.body and st.lineno < lp.lineno else \
+                (False if d[0] in ("lit", "konst", "inval") or (d[0] == "val" and d[2] != ("lit", 0)) else None)
+            ob("seed-from-sorted-position-0::value", ok, fi.where(st), "the running value is seeded from sorted position 0 (`%s`)" % norm(sc.X(st)))
+        ob(kk, True if vins and all(d == ("val", key, "cur") and st in arm for d, st in vins) else (False if not vins else None), fi.where(runif), mm)
+    elif ref == ("val", key, ("cur", -1)) or ref == ("val", key, ("var", bvar)):
+        ob(kk, True, fi.where(runif), mm + " (the comparison is with %s)" % ("the preceding element" if ref[2] != ("var", bvar) else "the first element of the run"))
+    else:
+        ob(kk, False if ref[0] == "inval" or (ref[0] == "val" and ref[2][0] == "lit") else None, fi.where(runif),
+           mm + "; the scan compares every element with `%s`" % norm(sc.X(runif.test)))
+    truthy = [x for x in _truth_contexts(fn) if sc.D(sc.X(x))[0] in ("val", "inval", "runval")]
+    ob("no-element-truth-test", not truthy, fi.where(truthy[0]) if truthy else fi.where(),
+       "no test of the helper uses the truth value of an element (zero, False and the empty string are values like any other)")
+    _type_subscripts(ob, sc, fi)
+    return done()
+
+
+class RunScan(Scan):
+    """a de-duplication that takes its runs from a run helper: the loop / comprehension variables bound to an emitted pair are the first sorted
+    position of a run ('rs') and the position after its last ('re')"""
+
+    def __init__(self, fi, narr, helpers):
+        Scan.__init__(self, fi, narr)
+        self.helpers = helpers
+        self.runvars = {}
+        self.sources = []       # descriptors of the arrays handed to the helper
+
+    def helper_call(self, e):
+        e = _strip_seq(self.X(e))
+        if isinstance(e, ast.Call) and isinstance(e.func, ast.Name) and e.func.id in self.helpers and len(e.args) == 1 and not e.keywords:
+            return e
+        return None
+
+    @staticmethod
+    def targets(t):
+        if isinstance(t, (ast.Tuple, ast.List)) and len(t.elts) == 2 and all(isinstance(x, ast.Name) for x in t.elts):
+            out = {}
+            for x, d in zip(t.elts, (("pos", "rs"), ("pos", "re"))):
+                if x.id != "_":
+                    out[x.id] = d
+            return out
+        return None
+
+    def D(self, e):
+        if isinstance(e, ast.Name) and e.id in self.runvars:
+            return self.runvars[e.id]
+        if isinstance(e, (ast.ListComp, ast.GeneratorExp)) and len(e.generators) == 1 and not e.generators[0].is_async:
+            g = e.generators[0]
+            c = self.helper_call(g.iter)
+            tv = self.targets(g.target)
+            if c is not None and tv is not None:
+                saved = dict(self.runvars)
+                self.runvars.update(tv)
+                try:
+                    d = self.D(self.X(e.elt))
+                finally:
+                    self.runvars = saved
+                return ("runlist", d, len(g.ifs), self.D(c.args[0]), c.func.id)
+            return ("opaque", norm(e))
+        if isinstance(e, ast.BinOp) and isinstance(e.op, (ast.Add, ast.Sub)):
+            l, r = self.D(e.left), self.D(e.right)
+            if l[0] == "pos" and l[1] in ("rs", "re") and r[0] == "lit":
+                k = r[1] if isinstance(e.op, ast.Add) else -r[1]
+                return l if k == 0 else ("pos", (l[1], k))
+            if isinstance(e.op, ast.Add) and ("pos", "rs") in (l, r):
+                o = r if l == ("pos", "rs") else l
+                if o[0] == "runarg":
+                    return ("pos", (o[1], o[2]))
+        if isinstance(e, ast.Call):
+            n = _cname(e)
+            recv = e.func.value if isinstance(e.func, ast.Attribute) and not _is_np(e) else None
+            a0 = recv if recv is not None else (e.args[0] if e.args else None)
+            if n in ("argmax", "argmin") and a0 is not None and len(e.args) == (0 if recv is not None else 1) and not e.keywords \
+                    and isinstance(a0, ast.Subscript) and isinstance(a0.slice, ast.Slice) and a0.slice.step is None \
+                    and a0.slice.lower is not None and a0.slice.upper is not None:
+                b = self.D(a0.value)
+                if b[0] == "sv" and self.D(a0.slice.lower) == ("pos", "rs") and self.D(a0.slice.upper) == ("pos", "re"):
+                    return ("runarg", n, b[1])      # offset, from the run start, of the first largest / smallest element of the run
+            if n in ("array", "asarray", "asanyarray", "list", "tuple", "fromiter") and a0 is not None:
+                d0 = self.D(a0)
+                if d0[0] == "runlist":
+                    return d0
+            if n == "take" and len(e.args) + (1 if recv is not None else 0) == 2:
+                return self.sub(self.D(a0), self.D(e.args[-1]), e)
+        return Scan.D(self, e)
+
+    def sub(self, b, i, e):
+        if i[0] == "runlist":
+            el = i[1]
+            if b == ("sorter",):
+                if el[0] == "pos":
+                    return ("runlist", ("idx", el[1])) + i[2:]
+                return ("bad", "an input index is used to index a sorted-order array")
+            if b[0] == "in":
+                return ("vals", b[1], i)
+            return ("unk", "index of unknown space")
+        return Scan.sub(self, b, i, e)
+
+
+_RUN_MEMBERS = ("rs", ("re", -1))
+
+
+def _runs_dedup(chk, mod, fi, narr, helpers):
+    q = fi.qualname
+    sc = RunScan(fi, narr, helpers)
+    fn = sc.fn
+    key, flagp = sc.key, sc.flagp
+    kr = q + "::runs-form-recognised"
+    mr = "the de-duplication takes the runs of equal values from one run helper, in one loop or comprehension over the pairs it emits"
+    calls = [x for x in walk_no_nested(fn) if isinstance(x, ast.Call) and isinstance(x.func, ast.Name) and x.func.id in helpers]
+    loops = [x for x in walk_no_nested(fn) if isinstance(x, ast.For) and sc.helper_call(x.iter) is not None]
+    comps = [x for x in walk_no_nested(fn) if isinstance(x, (ast.ListComp, ast.GeneratorExp)) and len(x.generators) == 1
+             and sc.helper_call(x.generators[0].iter) is not None]
+    whiles = [x for x in walk_no_nested(fn) if isinstance(x, (ast.While, ast.AsyncFor))]
+    if len(calls) != 1 or len(loops) + len(comps) != 1 or whiles:
+        chk.ob("R06.1", kr, None, fi.where(), mr + " (found %d call(s) of a run helper, %d loop(s) and %d comprehension(s) over one)" % (len(calls), len(loops), len(comps)))
+        return
+    call = sc.helper_call(loops[0].iter if loops else comps[0].generators[0].iter)
+    hv = _verify_run_helper(chk, mod, call.func.id)
+    chk.ob("R06.1", kr, True, fi.where(), mr)
+    if hv is not True:
+        return          # the helper's own rule instances carry the verdict
+    src = sc.D(call.args[0])
+    chk.ob("R06.1", q + "::runs-of-the-sorted-values", True if src == ("sv", key) else (False if src == ("in", key) else None), fi.where(call),
+           "the run helper is given the input in sorted order (the input gathered through its argsort): `%s`" % norm(call.args[0]))
+    if src != ("sv", key):
+        return
+    has_sorter = any(sc.D(sc.X(x)) == ("sorter",) for x in walk_no_nested(fn) if isinstance(x, (ast.Call, ast.Subscript)))
+    chk.ob("R06.1", q + "::sorter-found", True if has_sorter else None, fi.where(), "the runs are those of an argsort of the input")
+    if not has_sorter:
+        return
+    cfg = CFG(fn)
+    view = cfg.view()
+
+    def ctrl(st):
+        n = rules.node_of_stmt(cfg, st)
+        return {id(b.ast): lab for b, lab in view.controlling_branches(n)} if n is not None else {}
+
+    entry = None            # descriptor of the one entry recorded per run
+    kept = None             # the container it is recorded in (loop form)
+    seen_keys = set()
+
+    def ob_once(k_, ok_, w_, m_):
+        if k_ not in seen_keys:
+            seen_keys.add(k_)
+            chk.ob("R06.1", q + "::" + k_, ok_, w_, m_)
+    if comps:
+        tv = sc.targets(comps[0].generators[0].target)
+        if tv is not None and not any(len(sc.defs.get(n_, [])) != 1 for n_ in tv):
+            sc.runvars = tv         # the comprehension's own variables: bound nowhere else in the function
+        _type_subscripts(ob_once, sc, fi)
+    if loops:
+        outer = loops[0]
+        tv = sc.targets(outer.target)
+        bad = [x for st in outer.body for x in ast.walk(st) if isinstance(x, (ast.Break, ast.Continue, ast.Return, ast.Try, ast.With, ast.While))]
+        inner = [x for st in outer.body for x in ast.walk(st) if isinstance(x, ast.For)]
+        if tv is None or bad or outer.orelse or len(inner) > 1 or (inner and inner[0] not in outer.body):
+            chk.ob("R06.1", q + "::run-loop-recognised", None, fi.where(outer), "every emitted pair is unpacked into (start, stop) and the loop body runs once, "
+                   "to its end, for every run")
+            return
+        sc.runvars = tv
+        sc.inloop = {id(x) for st in outer.body for x in ast.walk(st)}
+        rng = None
+        if inner:
+            it = sc.X(inner[0].iter)
+            if isinstance(inner[0].target, ast.Name) and isinstance(it, ast.Call) and _cname(it) in ("range", "xrange") and isinstance(it.func, ast.Name) \
+                    and len(it.args) == 2 and not it.keywords and not inner[0].orelse:
+                sc.counter = inner[0].target.id
+                rng = (sc.D(it.args[0]), sc.D(it.args[1]))
+        chk.ob("R06.1", q + "::run-loop-recognised", True, fi.where(outer), "every emitted pair is unpacked into (start, stop) and the loop body runs once, "
+               "to its end, for every run")
+        _type_subscripts(ob_once, sc, fi)
+        stores = _kept_stores(sc)
+        live = [k for k, v in stores.items() if any(id(st) in sc.inloop for _, _, st in v)]
+        okc = None
+        if len(live) == 1:
+            sts = stores[live[0]]
+            alloc = [sc.D(sc.X(v)) for v, st in sc.defs.get(live[0], []) if isinstance(v, ast.AST)]
+            if len(sts) == 1 and sts[0][0] == "append" and sts[0][2] in outer.body and alloc == [("alloc", "list")] \
+                    and all(st.lineno < outer.lineno for v, st in sc.defs.get(live[0], [])):
+                okc = True
+                kept, entry = live[0], sts[0][1]
+                rec = sts[0][2]
+        chk.ob("R06.1", q + "::kept-container", okc, fi.where(outer), "one entry per run is appended, unconditionally, to one list that starts empty (found %s)" % sorted(live))
+        if okc is not True:
+            return
+        if narr == 2:
+            entry = _run_argmax(chk, sc, q, outer, inner, rng, entry, rec)
+            if entry is None:
+                return
+    # -- the entry kept for a run -------------------------------------------------
+    decided = {}
+
+    def entry_rule(el, where):
+        if el not in decided:
+            decided[el] = _entry_rule(el, where)
+        return decided[el]
+
+    def _entry_rule(el, where):
+        ke = q + "::one-member-of-every-run" + ("" if not decided else "::%d" % len(decided))
+        if narr == 1:
+            me = "the entry kept for a run is one of its members: the run's first sorted position (or its last, stop-1)"
+            ok = True if el[0] in ("idx", "pos") and el[1] in _RUN_MEMBERS else (False if el[0] in ("idx", "pos") and el[1] in ("re", ("rs", -1)) else None)
+        else:
+            me = "the entry kept for a run is the position of the largest flag among the run's members"
+            ok = True if el[0] in ("idx", "pos") and el[1] == ("argmax", flagp) else \
+                (False if el[0] in ("idx", "pos") and (el[1] == ("argmin", flagp) or el[1] in _RUN_MEMBERS) else None)
+        chk.ob("R06.1", ke, ok, where, me + "; found %s" % (el,))
+        return ok is True
+
+    if loops and not entry_rule(entry, fi.where(outer)):
+        return
+
+    # -- what is returned ------------------------------------------------------------
+    def space(d):
+        """index space of an index-array descriptor: 'Idx' / 'Pos' / None; runlists are checked by the entry rule on the way"""
+        if d[0] == "runlist":
+            if d[2] or d[3] != ("sv", key):
+                return None
+            if not entry_rule(d[1], fi.where()):
+                return "unrecognised"
+            return "Idx" if d[1][0] == "idx" else "Pos"
+        if d[0] == "kept" and d[1] == kept:
+            return "Idx" if entry[0] == "idx" else "Pos"
+        if d[0] == "idxarr" and len(d) == 3 and d[2] == kept:
+            return "Idx" if entry[0] == "pos" else "bad"
+        return None
+
+    seen = 0
+    for r_ in [x for x in walk_no_nested(fn) if isinstance(x, ast.Return) and x.value is not None]:
+        vals = []
+        todo = [r_.value]
+        while todo:
+            v = todo.pop(0)
+            if isinstance(v, ast.IfExp):
+                todo[:0] = [v.body, v.orelse]
+            elif isinstance(v, ast.Tuple):
+                todo[:0] = list(v.elts)
+            else:
+                vals.append(v)
+        one = _size_one_guard(sc, r_, ctrl)
+        for n, v in enumerate(vals):
+            d = sc.D(sc.X(v))
+            kk = "%s::returns-Idx::%d@%s" % (q, n, norm(sc.X(v))[:60])
+            if d[0] == "vals" and d[1] == key:
+                sp = space(d[2])
+                if sp == "unrecognised":
+                    return
+                chk.ob("R06.1", kk, None if sp is None else sp == "Idx", fi.where(r_), "the returned values are the input at the kept input indices (index space: %s)" % sp)
+                seen += sp == "Idx"
+            elif (d == ("lit", 0) or d[0] == "in") and one:
+                chk.ob("R06.1", kk, True, fi.where(r_), "a one-element input returns index 0")
+            elif d == ("sorter",):
+                chk.ob("R06.1", kk, False, fi.where(r_), "the whole sorter is returned: the kept positions were never selected from it")
+            else:
+                sp = space(d)
+                if sp == "unrecognised":
+                    return
+                chk.ob("R06.1", kk, None if sp is None else sp == "Idx", fi.where(r_),
+                       "the returned index array holds input indices (kept sorted positions mapped through the sorter; found space: %s)" % sp
+                       if sp is not None else "the returned value `%s` is not a recognised index array" % norm(sc.X(v)))
+                seen += sp == "Idx"
+    chk.ob("R06.1", q + "::returns-kept-entries", True if seen else None, fi.where(), "the kept entries reach a return statement (%d returned value(s) typed)" % seen)
+    srt = [x for x in walk_no_nested(fn) if isinstance(x, ast.Call) and _cname(x) == "sort" and isinstance(x.func, ast.Attribute) and not _is_np(x)]
+    bad = [c for c in srt if sc.D(sc.X(c.func.value))[0] == "in"]
+    chk.ob("R06.1", q + "::sorts-own-array", not bad, fi.where(bad[0]) if bad else fi.where(), "an in-place sort is applied to a local index array, never to an argument")
+    truthy = [x for x in _truth_contexts(fn) if sc.D(sc.X(x))[0] in ("val", "inval", "runval")]
+    chk.ob("R06.1", q + "::no-element-truth-test", not truthy, fi.where(truthy[0]) if truthy else fi.where(),
+           "no test uses the truth value of an element of the input (zero, False and the empty string are values like any other)")
+
+
+def _run_argmax(chk, sc, q, outer, inner, rng, entry, rec):
+    """the flagged variant over runs: inside the loop over (start, stop) the recorded position is that of the largest flag among the run's
+    members -- found by a scan `best = start; for i in range(start+1, stop): if flag_sorted[i] > flag_sorted[best]: best = i` (or with a
+    running largest flag), or by start + argmax(flag_sorted[start:stop]).  Returns the entry descriptor with the position replaced by
+    ('argmax', flag) / ('argmin', flag), or None when a verdict other than 'holds' was reported"""
+    fi, flagp = sc.fi, sc.flagp
+    kk = q + "::largest-flag-wins"
+    mm = "within a run the kept position is that of the largest flag: it starts at the run's first position and is replaced only when the flag at the " \
+         "position visited is larger than the largest flag seen in the run"
+    if entry[0] in ("pos", "idx") and isinstance(entry[1], tuple) and entry[1][0] in ("argmax", "argmin") and entry[1][1] == flagp and not inner:
+        chk.ob("R06.1", kk, entry[1][0] == "argmax", fi.where(rec), "within a run the kept position is start + argmax(flags of the run in sorted order); found %s" % entry[1][0])
+        return entry if entry[1][0] == "argmax" else None
+    if not (entry[0] in ("pos", "idx") and isinstance(entry[1], tuple) and entry[1][0] == "var"):
+        if entry[0] in ("pos", "idx") and entry[1] in _RUN_MEMBERS:
+            # a fixed member of every run is recorded whatever the flags say: right only when equal values were put in flag order by the sort
+            chk.ob("R06.1", kk, None if sc.tiebreaks else False, fi.where(rec), mm + "; the %s member of every run is recorded whatever its flag is%s"
+                   % ("first" if entry[1] == "rs" else "last", "" if not sc.tiebreaks else " (the sort orders equal values by flag: not decided in this form)"))
+            return None
+        chk.ob("R06.1", kk, None, fi.where(rec), mm + "; the recorded entry %s is not a position variable" % (entry,))
+        return None
+    b = entry[1][1]
+    if not inner or rng is None:
+        chk.ob("R06.1", kk, None, fi.where(outer), mm + "; no counted scan over the members of the run was found")
+        return None
+    lp = inner[0]
+    lo, hi = rng
+    okr = True if lo in (("pos", "rs"), ("pos", ("rs", 1))) and hi == ("pos", "re") else \
+        (False if lo[0] == "pos" and hi[0] == "pos" and (hi == ("pos", ("re", -1)) or (isinstance(lo[1], tuple) and lo[1][0] == "rs" and lo[1][1] > 1)) else None)
+    chk.ob("R06.1", q + "::run-scan-visits-every-member", okr, fi.where(lp), "the scan inside a run visits every member after the first: range(start [+1], stop); found "
+           "range(%s, %s)" % (norm(sc.X(lp.iter.args[0])) if isinstance(lp.iter, ast.Call) and lp.iter.args else "?",
+                             norm(sc.X(lp.iter.args[-1])) if isinstance(lp.iter, ast.Call) and lp.iter.args else "?"))
+    if okr is not True:
+        return None
+    if rec.lineno < lp.lineno or any(isinstance(x, (ast.Break, ast.Continue)) for st in lp.body for x in ast.walk(st)):
+        chk.ob("R06.1", kk, None, fi.where(rec), mm + "; the entry is recorded before the scan of the run has finished")
+        return None
+    cur = ("pos", "cur")
+    inl = {id(x) for st in lp.body for x in ast.walk(st)}
+    ifs = [x for st in lp.body for x in ast.walk(st) if isinstance(x, ast.If)]
+    fl = []
+    for x in lp.body:
+        if isinstance(x, ast.If):
+            t = sc.X(x.test)
+            if isinstance(t, ast.Compare) and len(t.ops) == 1 and isinstance(t.ops[0], (ast.Gt, ast.GtE, ast.Lt, ast.LtE)):
+                a, c = sc.D(t.left), sc.D(t.comparators[0])
+                for me, r_, left in ((a, c, True), (c, a, False)):
+                    if me == ("val", flagp, "cur") and ((r_[0] == "runval" and r_[2] == flagp) or r_ in (("val", flagp, ("var", b)), ("val", flagp, "rs"))):
+                        fl.append((x, r_, isinstance(t.ops[0], (ast.Gt, ast.GtE)) == left))
+    if len(fl) != 1 or len(ifs) != 1:
+        chk.ob("R06.1", kk, None, fi.where(lp), mm + "; found %d flag comparison(s) among %d test(s) of the scan" % (len(fl), len(ifs)))
+        return None
+    flagif, fref, larger = fl[0]
+    bdefs = [(sc.D(sc.X(v)) if isinstance(v, ast.AST) else ("opaque",), st) for v, st in sc.defs.get(b, [])]
+    seeds = [(d, st) for d, st in bdefs if id(st) not in inl]
+    upd = [(d, st) for d, st in bdefs if id(st) in inl]
+    ok_seed = len(seeds) == 1 and seeds[0][0] == ("pos", "rs") and seeds[0][1] in outer.body and seeds[0][1].lineno < lp.lineno
+    ok_upd = len(upd) == 1 and upd[0][0] == cur and upd[0][1] in flagif.body
+    if not larger:
+        chk.ob("R06.1", kk, False, fi.where(flagif), mm + "; `%s` replaces the kept position when a SMALLER flag is seen" % norm(sc.X(flagif.test)))
+        return None
+    if not (ok_seed and ok_upd) or flagif.orelse:
+        chk.ob("R06.1", kk, None, fi.where(flagif), mm + "; the position variable `%s` is not seeded with the run's first position and replaced in the arm of the "
+               "flag comparison only" % b)
+        return None
+    chk.ob("R06.1", kk, True, fi.where(flagif), mm)
+    k2 = q + "::running-maximum-updated-with-kept-position"
+    m2 = "when a larger flag is seen both the remembered largest flag and the kept position are replaced, and every run starts from its own first flag; " \
+         "otherwise a later, smaller flag can still displace the largest one"
+    if fref[0] == "runval":
+        f = fref[1]
+        fdefs = [(sc.D(sc.X(v)) if isinstance(v, ast.AST) else ("opaque",), st) for v, st in sc.defs.get(f, [])]
+        fseeds = [(d, st) for d, st in fdefs if id(st) not in inl]
+        fupd = [(d, st) for d, st in fdefs if id(st) in inl]
+        seed_ok = len(fseeds) == 1 and fseeds[0][0] == ("val", flagp, "rs") and fseeds[0][1] in outer.body and fseeds[0][1].lineno < lp.lineno
+        upd_ok = len(fupd) == 1 and fupd[0][0] == ("val", flagp, "cur") and fupd[0][1] in flagif.body
+        wrong = (not fupd) or any(d[0] == "inval" or (d[0] == "val" and d[2] != "rs") or id(st) not in sc.inloop for d, st in fseeds)
+        chk.ob("R06.1", k2, True if seed_ok and upd_ok else (False if wrong else None), fi.where(flagif),
+               m2 + " (largest flag seeded per run from its first member: %s, updated with the position: %s)" % (seed_ok, upd_ok))
+        if not (seed_ok and upd_ok):
+            return None
+    elif fref == ("val", flagp, "rs"):
+        chk.ob("R06.1", k2, False, fi.where(flagif), m2 + "; every member is compared with the flag of the run's FIRST member (`%s`), which is never replaced: "
+               "the last member whose flag exceeds it is kept, not the one with the largest flag" % norm(sc.X(flagif.test)))
+        return None
+    else:
+        chk.ob("R06.1", k2, True, fi.where(flagif), m2 + " (the largest flag seen is read through the kept position itself)")
+    return (entry[0], ("argmax", flagp))
